@@ -15,14 +15,26 @@ from hypothesis import strategies as st
 from vlib.gen import schema as GS
 
 
+def same_field(a, b):
+    """same result type and argument definitions (descriptions and deprecation aside)"""
+    if a is None or b is None:
+        return False
+    sig = lambda f: (f["type"], [(x["name"], x["type"], x.get("default", "-"), x.get("python_name")) for x in f.get("args") or []])  # noqa
+    return a["name"] == b["name"] and sig(a) == sig(b)
+
+
 def _h(s):
     return "%x" % (zlib.crc32(s.encode("utf-8")) & 0xFFFF)
 
 
 class Builder:
     def __init__(self, draw, spec, max_depth=3, use_variables=True, use_fragments=True, use_directives=True,
-                 int_boundary=False, frag_prefix="F", var_prefix="v"):
+                 int_boundary=False, frag_prefix="F", var_prefix="v", null_hazards=()):
         self.d = draw
+        # null_hazards: subset of {"argument", "directive"}: a nullable variable with a default, explicitly null in
+        # the payload, used where the argument is non-null: passes validation and variable coercion, fails when the
+        # field's (directive's) arguments are coerced during execution
+        self.null_hazards = set(null_hazards)
         self.spec = spec
         self.max_depth = max_depth
         self.use_variables = use_variables
@@ -30,6 +42,8 @@ class Builder:
         self.use_directives = use_directives
         self.int_boundary = int_boundary
         self.frags = []      # (name, on, seltext)
+        self.frag_heads = {}  # fragment name -> [(field definition, head text)] of its top-level fields
+        self.last_heads = []
         self.vars = {}       # name -> {"type": str, "default": spec-value|absent, "value": spec-value|absent}
         self.features = set()
         self.frag_prefix = frag_prefix
@@ -68,6 +82,9 @@ class Builder:
         v = GS.gen_input_value(self.d, self.spec, t, 1, self.int_boundary)
         if v is None and t[0] == "nn":
             v = GS.gen_nonnull(self.d, self.spec, t, 1)
+        if self.use_variables and t[0] == "nn" and "argument" in self.null_hazards and self.coin(1, 5):
+            self.features.add("null-variable-with-default-into-non-null-argument")
+            return "$" + self.new_var(GS.show_t(t[1]), None, True, GS.gen_nonnull(self.d, self.spec, t, 1), True)
         if self.use_variables and k in (1, 2, 3):
             # whole-argument variable of exactly the argument's type
             has_default = self.coin(1, 4)
@@ -107,7 +124,10 @@ class Builder:
                 val = "false"
             elif self.use_variables:
                 b = self.d(st.booleans())
-                if self.coin(1, 3):
+                if "directive" in self.null_hazards and self.coin(1, 3):
+                    self.features.add("null-variable-with-default-into-directive-condition")
+                    vn = self.new_var("Boolean", None, True, self.d(st.booleans()), True)
+                elif self.coin(1, 3):
                     vn = self.new_var("Boolean", b, self.coin(3, 4), self.d(st.booleans()), True)
                 else:
                     vn = self.new_var("Boolean!", b, True)
@@ -169,8 +189,10 @@ class Builder:
             items = ["__typename"]
             if leafs and self.coin():
                 items.append(self.field_text(parent, self.d(st.sampled_from(leafs)), depth))
+            self.last_heads = []
             return "{ " + " ".join(items) + " }"
         items = []
+        heads = []   # (field definition, head text) of the fields selected directly in this selection set
         for _ in range(self.n(1, 3)):
             k = self.n(0, 11)
             if k == 0 or not fields and k < 6:
@@ -196,17 +218,50 @@ class Builder:
                     self.frags.append([name, ct, None])
                     idx = len(self.frags) - 1
                     self.frags[idx][2] = self.selection_set(ct, depth + 1)
+                    self.frag_heads[name] = self.last_heads
                 self.features.add("fragment-spread")
                 items.append("...%s%s" % (name, self.directives("spread")))
+                # a sibling of the spread merging with a field selected inside the fragment (at this place only)
+                mine = [(f, h) for f, h in self.frag_heads.get(name, []) if same_field(spec.field(parent, f["name"]), f)] if fields else []
+                comp = [(f, h) for f, h in mine if not spec.is_leaf(GS.named(GS.parse_t(f["type"])))]
+                if comp and self.coin() or mine and self.coin(1, 4):
+                    f, h = self.d(st.sampled_from(comp or mine))
+                    self.features.add("merge-with-fragment-field")
+                    if comp:
+                        self.features.add("merge-with-composite-fragment-field")
+                    dup = self.field_text_dup(parent, f, depth, h)
+                    if self.coin():
+                        items.append(dup)
+                    else:
+                        items.insert(len(items) - 1, dup)
             elif fields:
                 f = self.d(st.sampled_from(fields))
                 items.append(self.field_text(parent, f, depth))
                 head = self.last_head
-                if self.coin(1, 5):
-                    # duplicate the same field (mergeable: same key) with another sub-selection
-                    items.append(self.field_text_dup(parent, f, depth, head))
+                heads.append((f, head))
+                narrower = [ct for ct in self.cond_types(parent) if ct != parent and spec.kind(ct) != "union"
+                            and same_field(spec.field(ct, f["name"]), f)]
+                composite = not spec.is_leaf(GS.named(GS.parse_t(f["type"])))
+                if self.coin(1, 2) if (narrower and composite) else self.coin(1, 4):
+                    # duplicate the same field (mergeable: same key) with another sub-selection, sometimes under a
+                    # type condition that narrows the parent (merged for some runtime types only)
+                    dup = self.field_text_dup(parent, f, depth, head)
+                    if narrower and self.coin(3 if composite else 1, 4 if composite else 2):
+                        self.features.add("merge-under-type-condition")
+                        strict = [ct for ct in narrower if set(spec.possible(ct)) < set(spec.possible(parent))]
+                        ct = self.d(st.sampled_from(strict if strict and self.coin(3, 4) else narrower))
+                        if composite:
+                            self.features.add("merge-composite-under-type-condition")
+                            if ct in strict:
+                                self.features.add("merge-composite-for-some-runtime-types-only")
+                        dup = "... on %s { %s }" % (ct, dup)
+                    if self.coin(3, 4):
+                        items.append(dup)
+                    else:
+                        items.insert(len(items) - 1, dup)
             else:
                 items.append("__typename")
+        self.last_heads = heads
         return "{ " + " ".join(items) + " }"
 
     def single_root_field(self, root):
@@ -252,13 +307,13 @@ def _var_defs_text(vars_):
 
 @st.composite
 def requests(draw, spec, op_kind=None, max_depth=3, use_variables=True, use_fragments=True, use_directives=True,
-             int_boundary=False, multi_op=True):
+             int_boundary=False, multi_op=True, null_hazards=()):
     kinds = ["query"]
     if spec.get("mutation"):
         kinds.append("mutation")
     kind = op_kind or draw(st.sampled_from(kinds))
     root = spec[kind]
-    b = Builder(draw, spec, max_depth, use_variables, use_fragments, use_directives, int_boundary)
+    b = Builder(draw, spec, max_depth, use_variables, use_fragments, use_directives, int_boundary, null_hazards=null_hazards)
     if kind == "subscription":
         body = b.single_root_field(root)
     else:
